@@ -21,6 +21,7 @@ HARNESS = os.path.join(HARNESS_DIR, "target", "debug", "harness")
 EVIDENCE = os.path.join(VERIF, "evidence")
 REPLAYS = os.path.join(VERIF, "replays")
 KNOWN = os.path.join(VERIF, "known_findings.json")
+THOROUGH = [False]   # set by the checks of the thorough tier (longer validation budgets)
 JAVA_OPTS_TRACE = "-Xss1g -Dtlc2.tool.queue.IStateQueue=StateDeque"
 
 
@@ -286,24 +287,33 @@ def split_trace(path, workdir, name, chunks):
     if not groups:
         return []
     chunks = max(1, min(chunks, len(groups)))
-    per = (len(groups) + chunks - 1) // chunks
+    # balance the chunks by bytes (long histories carry large states and cost far more per
+    # line): heaviest behaviours first, each into the lightest chunk so far
+    load = [0] * chunks
+    assign = [[] for _ in range(chunks)]
+    order = sorted(range(len(groups)), key=lambda gi: -sum(len(x) for x in groups[gi]))
+    for gi in order:
+        c = load.index(min(load))
+        assign[c].append(gi)
+        load[c] += sum(len(x) for x in groups[gi])
     files = []
     for c in range(chunks):
-        gs = groups[c * per:(c + 1) * per]
-        if not gs:
+        gis = sorted(assign[c])
+        if not gis:
             continue
         p = os.path.join(workdir, f"{name}-chunk{c}.ndjson")
         index = []  # line number (1-based) -> (group index global, step within group)
         with open(p, "w") as f:
-            for gi, g in enumerate(gs):
-                for si, line in enumerate(g):
+            for gi in gis:
+                for si, line in enumerate(groups[gi]):
                     f.write(line if line.endswith("\n") else line + "\n")
-                    index.append((c * per + gi, si))
+                    index.append((gi, si))
         files.append((p, index))
     return files
 
 
-def validate_chunk(module, cfgname, path, nkeys, workdir, timeout=1200):
+def validate_chunk(module, cfgname, path, nkeys, workdir, timeout=None):
+    timeout = timeout or (1200 if os.environ.get("VERIF_TIER", "quick") == "quick" and not THOROUGH[0] else 6000)
     env = {"TRACE": path, "NKEYS": str(nkeys), "JAVA_TOOL_OPTIONS": JAVA_OPTS_TRACE}
     rc, out = run_tlc(module, os.path.join(SPEC, cfgname), workdir, workers=1, env=env,
                       timeout=timeout, heap="3g")
